@@ -162,6 +162,10 @@ def binop(eng, op, a, b):
         if op == 'Mod':
             return SV(TStr, eng.fresh(TStr, 'fmt'))
         raise EngineError('string op %s' % op)
+    if isinstance(a, IterV) and getattr(a, 'keys_of', None) is not None and op in ('Sub', 'BitAnd', 'BitOr'):
+        mt = type_of(a.keys_of)
+        a = Box(TSet(mt.k), mt.dom(to_z3(a.keys_of)))      # d.keys() as the set of keys
+        ta = a.ty
     if isinstance(ta, TSet) or isinstance(tb, TSet) or (isinstance(a, Box) and a.kind == 'set') or \
             (isinstance(b, Box) and b.kind == 'set'):
         return set_binop(eng, op, a, b)
@@ -1527,6 +1531,8 @@ def dict_items(eng, d):
 
 def dict_keys(eng, d):
     it = make_iter(eng, d)
+    if it.concrete is None:
+        it.keys_of = d                   # a keys view: supports set difference / intersection with a set
     return it
 
 
@@ -1844,9 +1850,11 @@ def comprehension(eng, node, env, kind):
             return new_set(eng, out)
         return new_dict(eng, out)
     if g.ifs:
-        if kind not in ('gen', 'list'):
+        if kind not in ('gen', 'list', 'set'):
             raise EngineError('filtered %s comprehension over a symbolic sequence' % kind)
         res = filtered_iter(eng, it, g, env, elem)
+        if kind == 'set':
+            return b_set(eng, res)           # {e(x) for x in S if p(x)}: exactly the selected elements' images
         return iter_to_list(eng, res) if kind == 'list' else res
     if kind == 'dict':
         return dict_from_pairs(eng, it, g, env, elem)
